@@ -44,7 +44,7 @@ func newExec(ld *Loader, db *ContractDB, pkg *Pkg, cf *ContractFile, specs *Spec
 		tenv: map[string]string{}, typeParams: map[string]bool{}, adts: map[string]adtSpec{}, localSpec: map[string]localSig{},
 		strLits: map[string]Term{}, opts: map[string]string{}, assumed: map[string]bool{},
 		closures: map[types.Object]*ast.FuncLit{}, knownFns: map[string]knownFn{}, tags: map[string]Term{},
-		spawnedRepeatedly: map[*ast.FuncLit]bool{}, usedAfter: map[types.Object]bool{}, wfSeen: map[string]bool{}, typeParamObjs: map[string]*types.TypeParam{}, mapSorts: map[string]string{}, tenvObj: map[*types.TypeParam]string{}}
+		spawnedRepeatedly: map[*ast.FuncLit]bool{}, usedAfter: map[types.Object]bool{}, wfSeen: map[string]bool{}, typeParamObjs: map[string]*types.TypeParam{}, mapSorts: map[string]string{}, tenvObj: map[*types.TypeParam]string{}, vtrees: map[string]*valueTree{}, borrow: map[types.Object]ast.Expr{}}
 	return x
 }
 
@@ -59,6 +59,10 @@ func (x *Exec) setupPkgDirectives() {
 			if len(f) >= 5 && f[0] == "adt" {
 				// smt adt <type> list <head> <tail>
 				x.adts[path+"."+f[1]] = adtSpec{Kind: f[2], Head: f[3], Tail: f[4]}
+			}
+			if len(f) >= 3 && f[0] == "valuetree" {
+				// smt valuetree <Iface> <T1> <T2> ...
+				x.vtrees[path] = &valueTree{pkg: path, iface: f[1], types: f[2:]}
 			}
 		}
 	}
@@ -358,6 +362,9 @@ func (x *Exec) funcUnit(u *Unit) {
 	if sig.Recv() != nil {
 		recvName = sig.Recv().Name()
 		self = x.entryParam(st, sig.Recv(), "self")
+		if _, isP := types.Unalias(sig.Recv().Type()).(*types.Pointer); isP && x.isValuePtrType(sig.Recv().Type()) {
+			x.inoutRecv = sig.Recv()
+		}
 		entry["self"] = self
 		if recvName != "" && recvName != "_" {
 			entry[recvName] = self
@@ -551,6 +558,14 @@ func (x *Exec) checkPost(u *Unit, e, entry *State, mk func(*State, bool) *CEnv, 
 	env := mk(e, true)
 	env.old = entry
 	env.results = res
+	if x.inoutRecv != nil {
+		// the method updates its receiver in place: self is its final value, old(self) the entry value
+		env.oldSelf = env.self
+		env.self = x.getVar(e, x.inoutRecv)
+		if x.inoutRecv.Name() != "" {
+			env.names[x.inoutRecv.Name()] = env.self
+		}
+	}
 	x.applySets(e, env, pc, n)
 	x.applyGSets(e, env, pc, n)
 	if env.impl != nil {
@@ -635,10 +650,19 @@ func (x *Exec) subtypeUnit(u *Unit) {
 	if u.RecvPtr {
 		recvT = types.NewPointer(u.Recv)
 	}
-	self := x.d.constant("self", "Ref")
-	self.Ty = recvT
-	st.assume(tNot(tEq(self, nullRef)))
-	st.assume(x.isAlloc(st, self))
+	var self Term
+	treeRecv := false
+	if so, ok := x.valueTreeSort(recvT); ok {
+		// an owned tree node: the receiver is a value
+		self = x.d.constant("self", so)
+		self.Ty = recvT
+		treeRecv = true
+	} else {
+		self = x.d.constant("self", "Ref")
+		self.Ty = recvT
+		st.assume(tNot(tEq(self, nullRef)))
+		st.assume(x.isAlloc(st, self))
+	}
 	// interface type parameters -> sorts
 	tsub := map[string]string{}
 	tps := u.Iface.Origin().TypeParams()
@@ -647,7 +671,12 @@ func (x *Exec) subtypeUnit(u *Unit) {
 	}
 	impl := &implCtx{self: self, ic: u.Impl}
 	selfVal := self
-	if _, s, _ := structBehind(recvT); s == nil {
+	if treeRecv {
+		if w, ok := x.nodeWrap(self, recvT); ok {
+			selfVal = w // in the interface contract self is the tree interface value
+			selfVal.Ty = u.Iface
+		}
+	} else if _, s, _ := structBehind(recvT); s == nil {
 		selfVal = x.loadCell(st, self, recvT)
 	}
 	// find the method: declared on the type, or promoted
@@ -744,7 +773,7 @@ func (x *Exec) subtypeUnit(u *Unit) {
 		msig := mobj.Origin().Type().(*types.Signature)
 		if r := msig.Recv(); r != nil && r.Name() != "" && r.Name() != "_" {
 			var rv Term
-			if u.RecvPtr {
+			if u.RecvPtr || treeRecv {
 				rv = self
 			} else {
 				rv = x.derefWhole(st, self, u.Recv, nil)
